@@ -23,6 +23,14 @@ struct OutDec {
 	void feed(const char *p, size_t n, std::vector<Frame> &out);
 };
 
+struct C10State {
+	std::deque<std::string> frames; size_t base = 0, generated = 0;   // frames[k] is generated frame number base+k
+	std::vector<std::pair<size_t, size_t>> states{{0, 0}};            // NFA: (frame index, offset); offset 0 = at the boundary before that frame
+	std::vector<std::string> owed; bool owed_valid = false; bool dead = false;
+	std::string cur_P, cur_F; size_t accepted_total = 0; std::string suspect;
+	const std::string &frame(size_t i) const { return frames[i - base]; }
+};
+
 struct Client {
 	int idx = -1; std::string transport; std::string origin_ip; bool origin_local = false; std::string un_path;
 	int fd = -1;                       // daemon-side descriptor once accepted
@@ -32,7 +40,7 @@ struct Client {
 	// from the daemon
 	std::string out; int64_t space = -1; size_t wcap = 0; bool blocked = false; int wr_err = 0; bool wr_fail_after_close = false;
 	uint64_t write_attempts_turn = 0;
-	InDec in; OutDec od;
+	InDec in; OutDec od; C10State c10;
 	// oracle state
 	std::deque<Exp> expq; bool faulty = false; bool closing = false; bool no_expect = false;
 	bool hs_sent = false, hs_ok = false;
@@ -126,6 +134,11 @@ struct World : KernelHooks, ModelHost {
 	void on_frames(Client &cl, std::vector<Frame> &fr);
 	void on_frame(Client &cl, const Frame &f);
 	void on_ws_close_frame(Client &cl, const Frame &f);
+	void c10_offer(Client &cl, const struct iovec *iov, int cnt);
+	void c10_result(Client &cl, long accepted, int err);
+	void c10_accept(Client &cl, const char *p, size_t n);
+	void c10_quiescent();
+	void c10_turn_end();
 	int classify_ws(Client &cl, const WsInFrame &wf);
 	bool wsstrict = false;
 	bool try_match(Client &cl, const Frame &f, std::string &why);
